@@ -10,6 +10,8 @@ open Discv5.KB Discv5.Svc
 structure SvcInst where
   name : String
   svc : Svc
+  /-- the application is not reading its event stream: events are not part of the replies -/
+  evPaused : Bool := false
   /-- every request ever emitted (requests are looked up here once they are no longer active) -/
   hist : List ActiveReq := []
 
@@ -171,6 +173,7 @@ def runOn (st : ServiceSt) (x : String) (inp : Svc → Oracle → Svc × List Ou
     let (s2, o2) := applySuffix s1 sfx
     let outs := o1 ++ o2
     let (items, bans) := showOuts outs
+    let items := if i.evPaused then items.filter (fun s => !s.startsWith "ev:") else items
     let items := match extra with | some e => e :: items | none => items
     let i' := { i with svc := s2, hist := i.hist ++ histOf o1 s1 ++ histOf o2 s2 }
     let st' := { setInst st i' with bans := sortDedupStr (st.bans ++ bans) }
@@ -196,6 +199,14 @@ def serviceStep (st : ServiceSt) (toks : List String) : ServiceSt × String :=
       let cfg : Svc.Cfg := { ipMode := parseMode mode, maxNodesResponse := nat! maxn, enrUpdate := enrupd == "1",
                              kb := kbCfg (nat! maxin) 60000 }
       (setInst st { name := x, svc := Svc.init cfg r }, "ok")
+  | ["sevpause", x] =>
+    match getInst st x with
+    | some i => (setInst st { i with evPaused := true }, "ok")
+    | none => (st, "noop")
+  | ["sevresume", x] =>
+    match getInst st x with
+    | some i => (setInst st { i with evPaused := false }, "ok")
+    | none => (st, "noop")
   | ["sadd", x, rec] =>
     match parseRec rec, getInst st x with
     | some r, some i =>
